@@ -36,6 +36,8 @@ AnimRenders(loops, cache) == IF cache /\ loops > 1 THEN NFrames ELSE NFrames * l
 OpsStill ==
   {[op |-> o, fail |-> f, loops |-> 1, cache |-> FALSE, k |-> 0] :
       o \in {"render", "str"}, f \in {"no", "exc", "finfail", "kbrender"}}
+  \cup {[op |-> o, fail |-> "badargs", loops |-> 1, cache |-> FALSE, k |-> 0] :
+      o \in {"render", "draw_still", "draw_anim", "iter_ctor"}}
   \cup {[op |-> "draw_still", fail |-> f, loops |-> 1, cache |-> FALSE, k |-> 0] :
       f \in {"no", "validation", "exc", "interrupt", "finfail", "kbrender"}}
 
@@ -81,12 +83,15 @@ ProgCore(o) ==
          IF o.fail = "no" THEN <<"C">> \o Rep("R", NFrames) \o <<"Qkept">>
          ELSE <<"C">> \o Rep("R", o.k) \o <<"Qkept">>
     [] o.op \in {"owned_close", "owned_drop"} -> <<"C">> \o Rep("R", o.k) \o <<"Qkept">>
+    [] OTHER -> <<"Q">>
 
 \* Finalization is prompt (before E) everywhere except where draw() rejects the size: there
 \* the data is only finalized when it is garbage-collected (documented deviation, DESIGN 2.5).
 Prog(o) ==
   LET core == ProgCore(o) n == Len(core) IN
-  IF o.fail = "validation" THEN <<"C", "E", "F", "Q">>
+  \* incompatible render arguments are rejected BEFORE any render data is created
+  IF o.fail = "badargs" THEN <<"E", "Q">>
+  ELSE IF o.fail = "validation" THEN <<"C", "E", "F", "Q">>
   \* an abandoned, unfinished iterator is only closed by the (cyclic) garbage collector
   ELSE IF o.op = "iter_drop" THEN SubSeq(core, 1, n - 2) \o <<"E", "F", "Q">>
   ELSE SubSeq(core, 1, n - 1) \o <<"E", core[n]>>
@@ -107,7 +112,7 @@ LStep(st, e) ==
                        ELSE IF lc = "final" THEN <<lc, "finalized more than once">>
                        ELSE <<lc, "finalize without data">>
          [] e = "E" -> st
-         [] e = "Q" -> IF lc = "final" THEN <<"none", "">> ELSE <<lc, "not finalized at quiescence">>
+         [] e = "Q" -> IF lc \in {"final", "none"} THEN <<"none", "">> ELSE <<lc, "not finalized at quiescence">>
          [] e = "Qkept" -> IF lc = "live" THEN <<"none", "">>
                            ELSE <<lc, "caller-owned data was finalized by the library">>
          [] OTHER -> <<lc, "unknown event">>
